@@ -59,7 +59,51 @@ def cases(tier, seed):
     L = 4 if tier == "quick" else 5
     for first in range(len(STEPS)):
         out.append(("construct", first, L))
+    out.append(("autochain", 3 if tier == "quick" else 4))
     return out
+
+
+def run_autochain(maxlen, res):
+    """Option.auto(...) >> t1 >> t2 ... as a namespace member against Option(<qualified key>, ...) >> t1 >> t2 ...:
+    the same user callables run, in the same order (each transformation's input is produced before the
+    transformation, a step's own parameters are produced when that step is reached)."""
+    from labrea import Option
+
+    fails = []
+    for n in range(1, maxlen + 1):
+        for seq in itertools.product(range(3), repeat=n):
+            w = World("nocache")
+            tforms = []
+            for j, kind in enumerate(seq):
+                if kind == 0:
+                    tforms.append(w.fn(f"f{j}"))
+                elif kind == 1:
+                    tforms.append(w.build(("step", f"g{j}", {"y": ("ds", f"pd{j}", {"params": [("opt", "B", ("val", 0))]})})))
+                else:
+                    tforms.append(w.build(("step", f"h{j}", {"y": ("opt", "U", ("val", 1))})))
+            auto = Option.auto(3)
+            q = Option("NS.X", 3)
+            for t in tforms:
+                auto = auto >> t
+                q = q >> t
+            ns = Option.namespace(type("NS", (), {"X": auto}))
+            if w.build_violations:
+                fails.append({"sig": f"C06|autochain|ran-during-construction|{seq}", "what": f"user callables ran while a namespace with an automatic member piped through {seq} was defined", "detail": repr(w.build_violations), "case": ("autochain", maxlen)})
+            w.start()
+            for o in ({}, {"NS": {"X": 1}}, {"NS": {"X": 1}, "B": 2, "U": 5}):
+                res["evaluations"] += 1
+                w.reset_log()
+                a = observe(w, lambda: ns.X.evaluate(copy.deepcopy(o)))
+                la = list(w.log)
+                w.reset_log()
+                b = observe(w, lambda: q.evaluate(copy.deepcopy(o)))
+                lb = list(w.log)
+                if repr(a) != repr(b) or la != lb:
+                    sig = f"C06|autochain|{seq}"
+                    if not any(f["sig"] == sig for f in fails):
+                        fails.append({"sig": sig, "what": f"namespace member Option.auto(3) piped through transformations {seq} (0 function, 1 step with a dataset parameter, 2 step with an option parameter) under {o!r} differs from the qualified Option piped the same way",
+                                      "detail": f"member: {a!r} log {la}; qualified: {b!r} log {lb}", "case": ("autochain", maxlen)})
+    return fails
 
 
 def all_callables(term):
@@ -270,6 +314,10 @@ def run_case(case):
         res["sequences"] = 1
         if viol:
             res["failures"].append(_fail_seq(case[1], viol))
+        return res
+    if case[0] == "autochain":
+        res["failures"] = run_autochain(case[1], res)
+        res["sequences"] = 1
         return res
     if case[0] == "construct":
         _, first, L = case
